@@ -188,6 +188,19 @@ fn probe_one(m: &HistModel, st: &St, i: usize, proto: u16, id: u16, other_id: u1
         }
     }
     if allowed {
+        // the common-flow entry point on one buffer [packet with data for the unknown id][packet with its template]: it
+        // yields exactly the flows of what parse_bytes reports for that buffer (none from the unknown data)
+        let mut buf = mk(&[("D", id)]);
+        buf.extend(mk(&[("T", id)]));
+        if let (Some(mut p1), Some(mut p2)) = (m.rebuild(i, &st.enc[i]), m.rebuild(i, &st.enc[i])) {
+            let via_parse: usize = p1.parse_bytes(&buf).iter().filter_map(|e| e.as_netflow_common().ok()).map(|c| c.flowsets.len()).sum();
+            let via_helper = p2.parse_bytes_as_netflow_common_flowsets(&buf).len();
+            if via_helper != via_parse {
+                out.push(issue(format!("{}/records-for-unknown-template/through-the-common-flow-helper", pn), format!("instance {}: parse_bytes_as_netflow_common_flowsets returns {} flows for a buffer whose parse_bytes result converts to {}; buffer {}", i, via_helper, via_parse, hex(&buf))));
+            }
+        }
+    }
+    if allowed {
         // the same unknown-id data offered again (and again after data for a known id): still no records
         let mut p = m.rebuild(i, &st.enc[i]).unwrap();
         let alone = mk(&[("D", id)]);
